@@ -50,6 +50,8 @@ func (o Op) String() string {
 		return fmt.Sprintf("InsertEmpty(%q)", o.P)
 	case 'O':
 		return fmt.Sprintf("InsertOversize(%q)", o.P)
+	case 'U':
+		return fmt.Sprintf("InsertUnencodable(%q)", o.P)
 	case 'F':
 		return "SaveAndReopen"
 	case 'B':
@@ -66,6 +68,19 @@ var bigBuf = make([]byte, util.MPTMaxAllowableNodeSize+1)
 
 func (bigVal) MarshalMsg([]byte) ([]byte, error)     { return bigBuf, nil }
 func (bigVal) UnmarshalMsg(b []byte) ([]byte, error) { return nil, nil }
+
+// badVal is a value that cannot be encoded: its MarshalMsg reports an error (with or without partial output).
+type badVal struct{ partial bool }
+
+var errUnencodable = fmt.Errorf("value cannot be encoded")
+
+func (b badVal) MarshalMsg([]byte) ([]byte, error) {
+	if b.partial {
+		return []byte("partial"), errUnencodable
+	}
+	return nil, errUnencodable
+}
+func (badVal) UnmarshalMsg(b []byte) ([]byte, error) { return nil, nil }
 
 func val(s string) *util.SecureSerializableValue {
 	return &util.SecureSerializableValue{Buffer: []byte(s)}
@@ -183,6 +198,17 @@ func (w *World) Apply(o Op) (fail string) {
 		}
 		if !bytes.Equal(before, w.T.GetRoot()) {
 			return "rejected over-size insert changed the root"
+		}
+	case 'U':
+		// a value whose encoding fails: the insert reports the error and has not happened (the lookups and the
+		// iteration that follow every operation compare the content with the unchanged model)
+		for _, partial := range []bool{false, true} {
+			if _, err := w.T.Insert(util.Path(o.P), badVal{partial}); err == nil {
+				return "Insert of a value whose encoding fails returned no error"
+			}
+			if !bytes.Equal(before, w.T.GetRoot()) {
+				return "a rejected insert (the value's encoding failed) changed the root"
+			}
 		}
 	case 'F':
 		if w.Kind == PDirect {
